@@ -1133,6 +1133,8 @@ impl TypeLayout {
                     None
                 }
             }
+            // (the result of a call that returns nothing is not a value and has no properties)
+            Self::Void => None,
             _ if property_name == "to_str" => Some(new_assoc_function!(@to_str)),
             Self::List(list_type) => {
                 match property_name {
@@ -1798,6 +1800,12 @@ impl TypeLayout {
 
         let lhs = self.disregard_distractors(false);
         let other = other.disregard_distractors(false);
+
+        // the "result" of a call that returns nothing is not a value: no operator applies to it,
+        // not even the comparison with `nil` or `is`
+        if matches!(lhs, Void) || matches!(other, Void) {
+            return None;
+        }
 
         match (lhs, other) {
             (TypeLayout::Generic(g1), TypeLayout::Generic(g2)) => {
